@@ -87,6 +87,18 @@ CLAIMED = {
         note="Trusted: Coq kernel, translator (atomic site table), the hand-written RC11-style semantics of Model/BoxcarRA.v (SeqCst treated as AcqRel, no load buffering), program order of the vector's accesses hand-modelled; compiler/hardware conformance and third-party crates are outside. Axioms: none.",
         technique="Coq invariant proof over a release/acquire transition system parameterised by translator-regenerated orderings",
     ),
+    "C13": dict(
+        text="Coq theorems over the protocol model (Model/Nucleo.v: the UI thread's tick as a sequence of steps, the background run holding the worker mutex, the pool closure's post-unlock phase, flags, ghost obligation g_owed): while a notification is owed (a tick answered `running` and neither a worker notification nor a later tick/restart happened since) the system is never quiescent (C13_no_lost_wakeup); the closure that has released the lock and is about to look at the flag did complete and finds the flag armed, so it notifies (C13_will_notify); the worker notifies only after it has released the lock (C13_notify_after_unlock). For every interleaving at yield-point granularity, timeout 0 or long. The pinned tree's protocol violates this: the check found the lost wake-up as a deterministic schedule on the real code (findings/C13-lost-wakeup-witness.json), fixed in 154d49e. Tie: model-guided scheduled histories on the real Nucleo (UI thread, pool thread and injector threads parked at the yield points in tick_inner / Worker::run / the spawn closure), every observation compared with the extracted model, oracle on the notification events.",
+        design_ref="DESIGN.md section 6, C13",
+        note="Trusted: Coq kernel, extraction, scheduler harness; real time not modelled ('timeout' is a scheduler choice, enabled exactly while the lock is held); SC interleaving of the flag/lock accesses (the fix uses SeqCst + fences for the Dekker pattern); rayon spawn / parking_lot mutex semantics. Axioms: none.",
+        technique="Coq control-state invariant over the protocol LTS + scheduled-history correspondence",
+    ),
+    "C18": dict(
+        text="Coq theorems over a concrete list model of EVERY function of par_sort.rs (shift helpers, insertion sort, partial insertion sort, heapsort, partition, partition_equal, break_patterns with its xorshift, choose_pivot, recurse, par_quicksort; cancel flag = oracle nat->bool; rayon::join sequentialised) and of the worker comparator: the result is always a permutation (C18_perm_partial), sorted with flag false when the flag is never raised (C18_sorted_partial), `true` only if the flag was seen raised (C18_cancel_partial), no index out of range (C18_no_panic_partial), sorted permutations under a total order are unique hence thread-count independent (C18_unique, C18_schedule_independent_partial), the worker comparator is a strict total order on matches with distinct indices with placeholders last (C18_cmp_total); insertion sort, heapsort, partial insertion sort, partition_equal are proved sorted/permuting for any strict weak order. `_partial`: the block partition (partition_in_blocks) enters through its contract, which is validated on generated slices, not proved. One genuine defect found by the check and fixed (73be869): imbalanced partitions were not charged to the heapsort limit on the parallel path, so an adaptive adversary caused quadratic time and a stack overflow from ~16000 elements. Tie: exact equality of flag, final array and comparator-call count with the extracted model whenever the schedule is deterministic (never cancelled / cancelled at a given comparator call with 1 thread), observables otherwise; sorted/reversed/organ-pipe/few-keys/adversarial (McIlroy antiquicksort) inputs, 1-8 threads.",
+        design_ref="DESIGN.md section 6, C18",
+        note="Trusted: Coq kernel, extraction, harness; rayon::join = left then right on disjoint halves; contract of partition_in_blocks validated not proved; stack depth / running time outside the list model (the finding above was caught by the oracle on the implementation). Axioms: none (recursion on fuel).",
+        technique="Coq proof over a concrete list model with one contract + differential correspondence incl. adversarial inputs",
+    ),
 }
 PENDING_REASON = "not claimed yet: the Coq model, theorems and code tie for this property are still being built in this session (design in DESIGN.md section 6); no other technique is substituted"
 
